@@ -484,3 +484,102 @@ package ast
 //@   requires regexp_token != nil && 0 <= index && index <= len(regexp)
 //@   ensures index: result.2 == nil ==> index <= result.1 && result.1 <= len(regexp)
 //@   ensures none: result.2 == nil && result.0 == nil ==> result.1 == index
+
+// ---- regex literal translation (C14): syntax -> the tree the vore syntax would produce ----
+// (docs/language/RegexComparison.md). What is decided is the translation of each construct,
+// function by function; that the tree then matches what a regex engine matches is C01.
+
+//@ pred isDigitC(c Int) := '0' <= c && c <= '9'
+// The translator converts single bytes with string(byte), which is the character itself only
+// below 128: the claims are for ASCII pattern text (the property's domain).
+//@ pred asciiStr(s Str) := forall i :: { sat(s, i) } 0 <= i && i < len(s) ==> sat(s, i) < 128
+// digitsEnd(s, i): end of the maximal run of decimal digits of s starting at i
+//@ specfunc digitsEnd(Str, Int) Int
+//@ axiom digitsEnd_def: forall s Str, i Int :: { digitsEnd(s, i) } 0 <= i && i <= len(s) ==>
+//@    i <= digitsEnd(s, i) && digitsEnd(s, i) <= len(s)
+//@    && (forall k :: { sat(s, k) } i <= k && k < digitsEnd(s, i) ==> isDigitC(sat(s, k)))
+//@    && (digitsEnd(s, i) == len(s) || !isDigitC(sat(s, digitsEnd(s, i))))
+
+//@ func parse_regexp_number [C14]
+//@   ensures value: result.2 == nil ==> result.1 == digitsEnd(regexp, index) && result.0 == atoi(ssub(regexp, index, result.1)) [C14]
+//@   loop 1 invariant result == ssub(regexp, index, idx) && (forall k :: { sat(regexp, k) } index <= k && k < idx ==> isDigitC(sat(regexp, k))) [C14]
+
+// a quantifier l that ends at e (before an optional lazy mark) with bounds mn..mx; nxt is the index after it
+//@ pred quantAt(regexp Str, e Int, l *AstLoop, nxt Int, mn Int, mx Int) := l != nil && l.Min == mn && l.Max == mx && l.Name == "" && l.Fewest == (e < len(regexp) && sat(regexp, e) == '?') && nxt == e + (l.Fewest ? 1 : 0)
+// the quantifier (if any) that starts at index: the table of RegexComparison.md
+//@ pred quantSpec(regexp Str, index Int, l *AstLoop, nxt Int) := let op := (index < len(regexp) ? sat(regexp, index) : -1) in let e1 := digitsEnd(regexp, index + 1) in let e2 := digitsEnd(regexp, e1 + 1) in
+//@    (op == '*' ==> quantAt(regexp, index + 1, l, nxt, 0, -1))
+//@    && (op == '+' ==> quantAt(regexp, index + 1, l, nxt, 1, -1))
+//@    && (op == '?' ==> quantAt(regexp, index + 1, l, nxt, 0, 1))
+//@    && (op == '{' && sat(regexp, e1) == '}' ==> quantAt(regexp, e1 + 1, l, nxt, atoi(ssub(regexp, index + 1, e1)), atoi(ssub(regexp, index + 1, e1))))
+//@    && (op == '{' && sat(regexp, e1) == ',' && sat(regexp, e1 + 1) == '}' ==> quantAt(regexp, e1 + 2, l, nxt, atoi(ssub(regexp, index + 1, e1)), -1))
+//@    && (op == '{' && sat(regexp, e1) == ',' && sat(regexp, e1 + 1) != '}' ==> quantAt(regexp, e2 + 1, l, nxt, atoi(ssub(regexp, index + 1, e1)), atoi(ssub(regexp, e1 + 1, e2))))
+//@    && (op != '*' && op != '+' && op != '?' && op != '{' ==> l == nil && nxt == index)
+//@ func parse_regexp_quantifier [C14]
+//@   ensures table: result.2 == nil ==> quantSpec(regexp, index, result.0, result.1) [C14]
+//@   ensures fresh: result.2 == nil && result.0 != nil ==> fresh(result.0) && result.0.Body == nil [C14]
+
+// escapes: \d \D \s \S classes, \1..\99 numbered and \k<name> named back-references, other: the character
+//@ pred classLit(l AstLiteral, n Bool, t Int) := l is *AstCharacterClass && (l as *AstCharacterClass) != nil && (l as *AstCharacterClass).Not == n && (l as *AstCharacterClass).ClassType == t
+//@ pred charLit(l AstLiteral, n Bool, v Str) := l is *AstString && (l as *AstString) != nil && (l as *AstString).Not == n && (l as *AstString).Value == v && !(l as *AstString).Caseless
+//@ pred varLit(l AstLiteral, v Str) := l is *AstVariable && (l as *AstVariable) != nil && (l as *AstVariable).Name == v
+//@ func parse_regexp_escape_characters [C14]
+//@   let c := index < len(regexp) ? sat(regexp, index) : -1
+//@   let d := index + 1 < len(regexp) ? sat(regexp, index + 1) : -1
+//@   ensures digit: c == 'd' ==> result.2 == nil && result.1 == index + 1 && classLit(result.0, false, ClassDigit) [C14]
+//@   ensures notdigit: c == 'D' ==> result.2 == nil && result.1 == index + 1 && classLit(result.0, true, ClassDigit) [C14]
+//@   ensures space: c == 's' ==> result.2 == nil && result.1 == index + 1 && classLit(result.0, false, ClassWhitespace) [C14]
+//@   ensures notspace: c == 'S' ==> result.2 == nil && result.1 == index + 1 && classLit(result.0, true, ClassWhitespace) [C14]
+//@   ensures backref1: '1' <= c && c <= '9' && !isDigitC(d) ==> result.2 == nil && result.1 == index + 1 && varLit(result.0, "_" ++ schr(c)) [C14]
+//@   ensures backref2: '1' <= c && c <= '9' && isDigitC(d) ==> result.2 == nil && result.1 == index + 2 && varLit(result.0, "_" ++ schr(c) ++ schr(d)) [C14]
+//@   ensures named: c == 'k' && result.2 == nil && asciiStr(regexp) ==> d == '<' && index + 2 <= result.1 - 1 && sat(regexp, result.1 - 1) == '>' && varLit(result.0, ssub(regexp, index + 2, result.1 - 1)) [C14]
+//@   ensures other: c >= 0 && c < 128 && !('1' <= c && c <= '9') && c != 'd' && c != 'D' && c != 's' && c != 'S' && c != 'w' && c != 'W' && c != 'b' && c != 'B' && c != 'k' ==> result.2 == nil && result.1 == index + 1 && charLit(result.0, false, schr(c)) [C14]
+//@   loop 1 invariant index + 2 <= current_index && (asciiStr(regexp) ==> identifier == ssub(regexp, index + 2, current_index)) [C14]
+
+// atoms: . is "not newline", ^ and $ are line anchors (no quantifier), any other character is itself;
+// the quantifier that follows wraps exactly the atom just parsed
+//@ pred atomOrLoop(e AstExpression, regexp Str, q Int, nxt Int, n Bool, v Str) := (e is *AstPrimary && (e as *AstPrimary) != nil && charLit((e as *AstPrimary).Literal, n, v) && quantSpec(regexp, q, nil, nxt))
+//@    || (e is *AstLoop && quantSpec(regexp, q, e as *AstLoop, nxt) && (e as *AstLoop).Body is *AstPrimary && ((e as *AstLoop).Body as *AstPrimary) != nil && charLit(((e as *AstLoop).Body as *AstPrimary).Literal, n, v))
+//@ func parse_regexp_literal [C14]
+//@   let c := index < len(regexp) ? sat(regexp, index) : -1
+//@   ensures linestart: c == '^' ==> result.2 == nil && result.1 == index + 1 && result.0 is *AstPrimary && (result.0 as *AstPrimary) != nil && classLit((result.0 as *AstPrimary).Literal, false, ClassLineStart) [C14]
+//@   ensures lineend: c == '$' ==> result.2 == nil && result.1 == index + 1 && result.0 is *AstPrimary && (result.0 as *AstPrimary) != nil && classLit((result.0 as *AstPrimary).Literal, false, ClassLineEnd) [C14]
+//@   ensures dot: c == '.' && result.2 == nil ==> atomOrLoop(result.0, regexp, index + 1, result.1, true, "\n") [C14]
+//@   ensures char: c >= 0 && c < 128 && c != '^' && c != '$' && c != '\\' && c != '(' && c != '[' && c != '.' && result.2 == nil ==> atomOrLoop(result.0, regexp, index + 1, result.1, false, schr(c)) [C14]
+
+// bracket classes: [^...] negates; a-z is a range of the two characters, anything else is itself
+//@ func parse_regexp_character_class [C14]
+//@   ensures negation: result.2 == nil ==> result.0 is *AstList && (result.0 as *AstList) != nil && (result.0 as *AstList).Not == (sat(regexp, index) == '^') [C14]
+//@ func parse_regexp_class_ranges [C14]
+//@   let a := sat(regexp, index)
+//@   let isRange := index + 2 < len(regexp) && sat(regexp, index + 1) == '-' && sat(regexp, index + 2) != ']'
+//@   ensures range: a != '\\' && a < 128 && sat(regexp, index + 2) < 128 && result.2 == nil && isRange ==> result.1 == index + 3 && result.0 is *AstRange && (result.0 as *AstRange) != nil && (result.0 as *AstRange).From != nil && (result.0 as *AstRange).To != nil && (result.0 as *AstRange).From.Value == schr(a) && !(result.0 as *AstRange).From.Not && (result.0 as *AstRange).To.Value == schr(sat(regexp, index + 2)) && !(result.0 as *AstRange).To.Not [C14]
+//@   ensures single: a != '\\' && a < 128 && result.2 == nil && !isRange ==> result.1 == index + 1 && charLit(result.0, false, schr(a)) [C14]
+//@ func parse_regexp_class_atom_string [C14]
+//@   ensures notclose: result.2 == nil && result.0 != nil ==> index < len(regexp) && sat(regexp, index) != ']' [C14]
+//@   ensures atomval: result.2 == nil && result.0 != nil && sat(regexp, index) < 128 ==> result.0.Value == schr(sat(regexp, index)) && !result.0.Not && !result.0.Caseless && fresh(result.0) [C14]
+
+// groups: (?:..) plain, (?<n>..) declares n, (..) declares _k where k is one more than the number
+// of capturing groups opened before this one
+//@ pred decOf(l AstLiteral, name Str) := l is *AstSubExpr && (l as *AstSubExpr) != nil && len((l as *AstSubExpr).Body) == 1 && (l as *AstSubExpr).Body[0] is *AstDec && ((l as *AstSubExpr).Body[0] as *AstDec) != nil && ((l as *AstSubExpr).Body[0] as *AstDec).Name == name
+//@ func parse_regexp_groups [C14]
+//@   modifies capture_group_number
+//@   let c := index < len(regexp) ? sat(regexp, index) : -1
+//@   let n0 := capture_group_number
+//@   ensures numbering: c >= 0 && c != '?' && result.2 == nil ==> decOf(result.0, "_" ++ itoa(n0 + 1)) && capture_group_number >= n0 + 1 [C14]
+//@   ensures monotone: capture_group_number >= n0 [C14]
+//@   ensures noncapturing: c == '?' && sat(regexp, index + 1) == ':' && result.2 == nil ==> result.0 is *AstSubExpr [C14]
+//@   ensures namedgroup: c == '?' && sat(regexp, index + 1) == '<' && result.2 == nil && asciiStr(regexp) ==> exists e Int :: index + 2 <= e && e < len(regexp) && sat(regexp, e) == '>' && decOf(result.0, ssub(regexp, index + 2, e)) [C14]
+//@   loop 1 invariant index + 2 <= current_index && (asciiStr(regexp) ==> identifier == ssub(regexp, index + 2, current_index)) && capture_group_number == n0 [C14]
+//@ func parse_regexp_disjunction [C14]
+//@   modifies capture_group_number
+//@   ensures monotone: capture_group_number >= old(capture_group_number) [C14]
+//@   loop 1 invariant capture_group_number >= old(capture_group_number) [C14]
+//@ func parse_regexp_pattern [C14]
+//@   modifies capture_group_number
+//@   ensures monotone: capture_group_number >= old(capture_group_number) [C14]
+//@ func parse_regexp_literal [C14]
+//@   modifies capture_group_number
+//@   ensures monotone: capture_group_number >= old(capture_group_number) [C14]
+//@ func parse_regexp [C14]
+//@   modifies capture_group_number
